@@ -713,4 +713,234 @@ theorem rtp_msg_slot (S : Schema) (cs : KeyCase) (fs : List FieldD) (idx : Nat) 
     unfold fresh at this
     rw [this]
 
+/-! ### the loop over the keys, and a whole message body -/
+
+theorem keys_loop (S : Schema) (cs : KeyCase) (c : Nat) (cur : List (Option Nat))
+    (hn : namesOk cs (fieldsOf S c) = true)
+    (hopt : ∀ f ∈ fieldsOf S c, f.group.isSome = true → f.optional = false) :
+    ∀ (vs : List Val) (idx : Nat) (st : MState), FreshAbove (fieldsOf S c) idx st →
+      (∀ k v f, vs[k]? = some v → (fieldsOf S c)[idx + k]? = some f →
+        SlotRTP S cs (fieldsOf S c) (idx + k) f (hidden f (idx + k) cur) (selectedInGroup f (idx + k) cur) v) →
+      ∃ kvs, toPyDictKVs S cs false (fieldsOf S c) cur idx vs = .ok kvs ∧
+        fromPyKeys S c st (kvs.map (·.1)) (kvs.map (·.2))
+          = .ok (applyKw S (fieldsOf S c) st (emitted2 S [] cs (fieldsOf S c) cur idx vs))
+  | [], idx, st, _, _ => by
+    refine ⟨[], by rw [toPyDictKVs], ?_⟩
+    rw [emitted2]; simp [fromPyKeys, applyKw]
+  | v :: vs, idx, st, hfr, hrt => by
+    rw [toPyDictKVs, emitted2]
+    have hrt' : ∀ k v' f, vs[k]? = some v' → (fieldsOf S c)[idx + 1 + k]? = some f →
+        SlotRTP S cs (fieldsOf S c) (idx + 1 + k) f (hidden f (idx + 1 + k) cur) (selectedInGroup f (idx + 1 + k) cur) v' := by
+      intro k v' f' hv hf'
+      have e : idx + (k + 1) = idx + 1 + k := by omega
+      have := hrt (k + 1) v' f' (by simpa using hv) (by rw [e]; exact hf')
+      rw [e] at this; exact this
+    cases hf : (fieldsOf S c)[idx]? with
+    | none => exact ⟨[], rfl, by simp [fromPyKeys, applyKw]⟩
+    | some f =>
+      simp only
+      have h0 := hrt 0 v f (by simp) (by simpa using hf)
+      simp only [Nat.add_zero] at h0
+      cases hs : toDictSlot S [] cs false f (hidden f idx cur) (selectedInGroup f idx cur) v with
+      | none =>
+        obtain ⟨kvs, hk1, hk2⟩ := keys_loop S cs c cur hn hopt vs (idx + 1) st (freshAbove_mono _ idx st hfr) hrt'
+        refine ⟨kvs, ?_, hk2⟩
+        rw [h0.1 hs, hk1]; rfl
+      | some j =>
+        obtain ⟨p, hp1, hp2⟩ := h0.2 j hs
+        have hdec := hp2 st hf (hfr idx f (Nat.le_refl _) hf)
+        obtain ⟨kvs, hk1, hk2⟩ := keys_loop S cs c cur hn hopt vs (idx + 1)
+          (setAttr S (fieldsOf S c) st idx (jrt S [] cs v)) (freshAbove_setAttr S _ idx st _ hopt hfr) hrt'
+        refine ⟨(jsonKey cs f.name, p) :: kvs, ?_, ?_⟩
+        · rw [hp1, hk1]; rfl
+        · simp only [List.map_cons]
+          rw [fromPyKeys, namesOk_lookup cs _ hn idx f hf]
+          simp only [hdec, Except.bind, bind]
+          rw [hk2]; rfl
+
+/-- the `setattr` sequence of the written fields on a fresh instance ends in the state of `jrt` -/
+theorem applyKw_fresh_jrt (S : Schema) (cs : KeyCase) (hS : SchemaOk S [] cs) (c : Nat) (sl : List Val) (unk : Bytes)
+    (cur : List (Option Nat)) (hbody : bodyOk S c sl unk cur = true) (hcp : curPoints (fieldsOf S c) cur = true)
+    (hrt : ∀ k v f, sl[k]? = some v → (fieldsOf S c)[k]? = some f →
+      SlotRT2 S [] cs f (hidden f k cur) (selectedInGroup f k cur) v) :
+    applyKw S (fieldsOf S c) (freshOn S c) (emitted2 S [] cs (fieldsOf S c) cur 0 sl)
+      = { slots := jrtSlots S [] cs (fieldsOf S c) cur 0 sl, onWire := true, unknown := [], cur := cur } := by
+  obtain ⟨_, hlen, hcl, _⟩ := bodyOk_spec S c sl unk cur hbody
+  have hfin := instInv_step S [] cs (fieldsOf S c) (groupsOf S c) sl cur (schema_groups S [] cs hS c)
+    (fun f hf hg => fieldJsonOk_group_nonopt f (schema_field S [] cs hS c f hf) hg) hlen hcp hrt
+    sl 0 _ (instInv_fresh S [] cs (fieldsOf S c) (groupsOf S c) sl cur)
+    (fun k v hk => by simpa using hk) (by simpa using hlen)
+  obtain ⟨e1, e2, e3, e4⟩ := instInv_final S [] cs (fieldsOf S c) (groupsOf S c) sl cur _ hlen hcl hcp hfin
+  unfold freshOn
+  cases hq : applyKw S (fieldsOf S c) _ (emitted2 S [] cs (fieldsOf S c) cur 0 sl) with
+  | mk a b c' d =>
+    rw [hq] at e1 e2 e3 e4
+    simp only at e1 e2 e3 e4
+    rw [e1, e2, e3, e4]
+
+theorem msgRTP_of_slots (S : Schema) (cs : KeyCase) (hS : SchemaOk S [] cs) (c : Nat) (sl : List Val) (unk : Bytes)
+    (cur : List (Option Nat)) (hbody : bodyOk S c sl unk cur = true) (hcp : curPoints (fieldsOf S c) cur = true)
+    (hrt2 : ∀ k v f, sl[k]? = some v → (fieldsOf S c)[k]? = some f →
+      SlotRT2 S [] cs f (hidden f k cur) (selectedInGroup f k cur) v)
+    (hrtp : ∀ k v f, sl[k]? = some v → (fieldsOf S c)[0 + k]? = some f →
+      SlotRTP S cs (fieldsOf S c) (0 + k) f (hidden f (0 + k) cur) (selectedInGroup f (0 + k) cur) v) :
+    MsgRTP S cs c sl cur := by
+  obtain ⟨kvs, h1, h2⟩ := keys_loop S cs c cur (schema_names S [] cs hS c)
+    (fun f hf hg => fieldJsonOk_group_nonopt f (schema_field S [] cs hS c f hf) hg) sl 0 (freshOn S c)
+    (freshAbove_fresh S c) hrtp
+  exact ⟨kvs, h1, by rw [h2, applyKw_fresh_jrt S cs hS c sl unk cur hbody hcp hrt2]⟩
+
+/-! ### the induction over nested messages -/
+
+theorem dictKeysOkL_cons (x : Val) (xs : List Val) : dictKeysOkL (x :: xs) = (dictKeysOk x && dictKeysOkL xs) := by
+  rw [dictKeysOkL]
+
+theorem jrtList_length (S : Schema) (E : Enums) (cs : KeyCase) : ∀ xs : List Val, (jrtList S E cs xs).length = xs.length
+  | [] => by rw [jrtList]
+  | x :: xs => by rw [jrtList]; simp [jrtList_length S E cs xs]
+
+mutual
+theorem rtp_slots (S : Schema) (cs : KeyCase) (hS : SchemaOk S [] cs) (hP : ∀ c, ∀ f ∈ fieldsOf S c, fieldPyOk f = true)
+    (fs : List FieldD) (cur : List (Option Nat)) (hfs : ∀ f ∈ fs, fieldPyOk f = true) :
+    ∀ (vs : List Val) (idx : Nat), slotsOk' S fs cur idx vs = true → selOkList S vs = true → dictKeysOkL vs = true →
+      ∀ k v f, vs[k]? = some v → fs[idx + k]? = some f →
+        SlotRTP S cs fs (idx + k) f (hidden f (idx + k) cur) (selectedInGroup f (idx + k) cur) v
+  | [], _, _, _, _ => by intro k v f hv; simp at hv
+  | a :: as, idx, h, hs, hd => by
+    rw [slotsOk'] at h
+    rw [selOkList] at hs
+    rw [dictKeysOkL_cons] at hd
+    simp only [Bool.and_eq_true] at h hs hd
+    intro k v f hv hf
+    cases k with
+    | zero =>
+      simp only [List.getElem?_cons_zero, Option.some.injEq] at hv
+      simp only [Nat.add_zero] at hf ⊢
+      rw [hf] at h
+      rw [← hv]
+      exact rtp_slot S cs hS hP fs idx f _ _ (fp_of f (hfs f (List.mem_of_getElem? hf))) (hs_slot f idx cur) a h.1 hs.1 hd.1
+    | succ k =>
+      have := rtp_slots S cs hS hP fs cur hfs as (idx + 1) h.2 hs.2 hd.2 k v f (by simpa using hv)
+        (by rw [← hf]; congr 1; omega)
+      have e : idx + (k + 1) = idx + 1 + k := by omega
+      rw [e]; exact this
+termination_by structural vs => vs
+
+theorem rtp_slot (S : Schema) (cs : KeyCase) (hS : SchemaOk S [] cs) (hP : ∀ c, ∀ f ∈ fieldsOf S c, fieldPyOk f = true)
+    (fs : List FieldD) (idx : Nat) (f : FieldD) (hid sel : Bool) (hp : FP f) (hs : HS f hid sel) :
+    ∀ (v : Val), slotOk' S f hid sel v = true → selOk S v = true → dictKeysOk v = true → SlotRTP S cs fs idx f hid sel v
+  | .ph, h, _, _ => rtp_ph S cs fs idx f hid sel hp h
+  | .none, h, _, _ => rtp_none S cs fs idx f hid sel hp hs h
+  | .int i, h, _, _ => rtp_leaf S cs fs idx f hid sel (.int i) hp rfl (by intro e; cases e) h
+  | .bool b, h, _, _ => rtp_leaf S cs fs idx f hid sel (.bool b) hp rfl (by intro e; cases e) h
+  | .f32 b, h, _, _ => rtp_leaf S cs fs idx f hid sel (.f32 b) hp rfl (by intro e; cases e) h
+  | .f64 b, h, _, _ => rtp_leaf S cs fs idx f hid sel (.f64 b) hp rfl (by intro e; cases e) h
+  | .str s, h, _, _ => rtp_leaf S cs fs idx f hid sel (.str s) hp rfl (by intro e; cases e) h
+  | .byt s, h, _, _ => rtp_leaf S cs fs idx f hid sel (.byt s) hp rfl (by intro e; cases e) h
+  | .ts us, h, _, _ => rtp_leaf S cs fs idx f hid sel (.ts us) hp rfl (by intro e; cases e) h
+  | .dur us, h, _, _ => rtp_leaf S cs fs idx f hid sel (.dur us) hp rfl (by intro e; cases e) h
+  | .list xs, h, hsel, hdk => by
+    by_cases hu : (f.ty == PType.message) = true ∧ f.wraps = Option.none ∧ ∃ c, f.kind = .user c
+    · obtain ⟨hm, hw, c, hk⟩ := hu
+      obtain ⟨_, _, _, _, _, _, hit⟩ := list_common S f hid sel xs hp.fj hs h
+      rw [selOk_list] at hsel
+      rw [dictKeysOk_list] at hdk
+      obtain ⟨items, h1, _, h3⟩ := rtp_msgs S cs hS hP c xs (itemsOk_user S f c xs hm hw hk hit) hsel hdk
+      exact rtp_list_user S cs fs idx f hid sel xs c hp hs hm hk h items h1 h3
+    · exact rtp_list_flat S cs fs idx f hid sel xs hp hs hu h
+  | .dict ks vs, h, hsel, hdk => by
+    rw [dictKeysOk_dict] at hdk
+    simp only [Bool.and_eq_true, decide_eq_true_eq] at hdk
+    by_cases hv : (f.mapV == PType.message) = true
+    · obtain ⟨_, _, hty, _, hvs⟩ := dict_common S f hid sel ks vs hp.fj hs h
+      obtain ⟨c, hk⟩ := hp.fj.map_vk (by simp [hty]) hv
+      rw [selOk_dict] at hsel
+      obtain ⟨items, _, h2, h3⟩ := rtp_msgs S cs hS hP c vs (mapValsOk_user S f c vs hv hk hvs) hsel hdk.2
+      exact rtp_dict_user S cs fs idx f hid sel ks vs c hp hs hv hk h hdk.1 items h2 h3 (jrtList_length S [] cs vs)
+    · exact rtp_dict_flat S cs fs idx f hid sel ks vs hp hs (by simpa using hv) h
+  | .msg c sl ow unk cur, h, hsel, hdk => by
+    have hbody : bodyOk S c sl unk cur = true := by
+      rw [slotOk_msg] at h
+      simp only [Bool.and_eq_true] at h
+      exact h.2
+    rw [selOk_msg] at hsel
+    rw [dictKeysOk_msg] at hdk
+    simp only [Bool.and_eq_true] at hsel
+    obtain ⟨_, _, _, hsl⟩ := bodyOk_spec S c sl unk cur hbody
+    have hrt2 := rt_slots S [] cs hS (fieldsOf S c) cur (fun f hf => schema_field S [] cs hS c f hf) sl 0 hsl hsel.2
+    have hrtp := rtp_slots S cs hS hP (fieldsOf S c) cur (hP c) sl 0 hsl hsel.2 hdk
+    exact rtp_msg_slot S cs fs idx f hid sel c sl ow unk cur hp hs h
+      (msgRTP_of_slots S cs hS c sl unk cur hbody hsel.1 (fun k v f hv hf => by
+        have := hrt2 k v f hv (by simpa using hf)
+        simpa using this) hrtp)
+termination_by structural v => v
+
+/-- a list of messages of class `c` (the items of a repeated field, the values of a map) -/
+theorem rtp_msgs (S : Schema) (cs : KeyCase) (hS : SchemaOk S [] cs) (hP : ∀ c, ∀ f ∈ fieldsOf S c, fieldPyOk f = true)
+    (c : Nat) :
+    ∀ (xs : List Val), (∀ x ∈ xs, ∃ sl ow unk cur, x = Val.msg c sl ow unk cur ∧ bodyOk S c sl unk cur = true) →
+      selOkList S xs = true → dictKeysOkL xs = true →
+      ∃ items, toPyDictList S cs false xs = .ok items ∧ toPyDictMapVals S cs false xs = .ok items ∧
+        fromPyItems S c items = .ok (jrtList S [] cs xs)
+  | [], _, _, _ => by
+    refine ⟨[], by rw [toPyDictList], by rw [toPyDictMapVals], ?_⟩
+    rw [jrtList, fromPyItems]
+  | .msg c' sl ow unk cur :: xs, h, hsel, hdk => by
+    obtain ⟨sl0, ow0, unk0, cur0, e, hbody0⟩ := h _ (List.mem_cons_self)
+    have ec : c' = c := by injection e
+    have hbody : bodyOk S c' sl unk cur = true := by
+      injection e with e1 e2 e3 e4 e5
+      rw [e1, e2, e4, e5]; exact hbody0
+    rw [selOkList, selOk_msg] at hsel
+    rw [dictKeysOkL_cons, dictKeysOk_msg] at hdk
+    simp only [Bool.and_eq_true] at hsel hdk
+    obtain ⟨hunk, _, _, hsl⟩ := bodyOk_spec S c' sl unk cur hbody
+    have hrt2 := rt_slots S [] cs hS (fieldsOf S c') cur (fun f hf => schema_field S [] cs hS c' f hf) sl 0 hsl hsel.1.2
+    have hrtp := rtp_slots S cs hS hP (fieldsOf S c') cur (hP c') sl 0 hsl hsel.1.2 hdk.1
+    obtain ⟨kvs, a1, a2⟩ := msgRTP_of_slots S cs hS c' sl unk cur hbody hsel.1.1 (fun k v f hv hf => by
+        have := hrt2 k v f hv (by simpa using hf)
+        simpa using this) hrtp
+    obtain ⟨items, b1, b2, b3⟩ := rtp_msgs S cs hS hP c xs (fun x hx => h x (List.mem_cons_of_mem _ hx)) hsel.2 hdk.2
+    subst hunk
+    refine ⟨mkObj kvs :: items, ?_, ?_, ?_⟩
+    · rw [toPyDictList, a1, b1]; rfl
+    · rw [toPyDictMapVals, a1, b2]; rfl
+    · rw [jrtList, jrt_msg, mkObj, fromPyItems]
+      unfold freshOn at a2
+      rw [← ec, a2]
+      rw [← ec] at b3
+      simp only [Except.bind, bind, b3, MState.toVal]
+  | .ph :: _, h, _, _ | .none :: _, h, _, _ | .int _ :: _, h, _, _ | .bool _ :: _, h, _, _ | .f32 _ :: _, h, _, _
+  | .f64 _ :: _, h, _, _ | .str _ :: _, h, _, _ | .byt _ :: _, h, _, _ | .ts _ :: _, h, _, _ | .dur _ :: _, h, _, _
+  | .list _ :: _, h, _, _ | .dict _ _ :: _, h, _, _ => by
+    obtain ⟨_, _, _, _, e, _⟩ := h _ (List.mem_cons_self)
+    cases e
+termination_by structural xs => xs
+end
+
+/-- **`Cls().from_pydict(m.to_pydict(casing))` returns `jrt m`** -/
+theorem pydict_roundtrip (S : Schema) (cs : KeyCase) (hok : pyDictOk S cs = true) (hgroups : groupsOk S = true)
+    (c : Nat) (sl : List Val) (ow : Bool) (unk : Bytes) (cur : List (Option Nat))
+    (hwt : wellTyped' S (.msg c sl ow unk cur) = true) (hsel : selOk S (.msg c sl ow unk cur) = true)
+    (hkeys : dictKeysOk (.msg c sl ow unk cur) = true) :
+    ∃ p, toPyDict S cs false (.msg c sl ow unk cur) = .ok p ∧
+      fromPyDict S c p = .ok (jrt S [] cs (.msg c sl ow unk cur)) := by
+  obtain ⟨hjson, hP⟩ := pyDictOk_schema S cs hok
+  have hS : SchemaOk S [] cs := ⟨hjson, hgroups⟩
+  have hbody : bodyOk S c sl unk cur = true := by rw [wellTyped_msg] at hwt; exact hwt
+  rw [selOk_msg] at hsel
+  rw [dictKeysOk_msg] at hkeys
+  simp only [Bool.and_eq_true] at hsel
+  obtain ⟨hunk, _, _, hsl⟩ := bodyOk_spec S c sl unk cur hbody
+  have hrt2 := rt_slots S [] cs hS (fieldsOf S c) cur (fun f hf => schema_field S [] cs hS c f hf) sl 0 hsl hsel.2
+  have hrtp := rtp_slots S cs hS hP (fieldsOf S c) cur (hP c) sl 0 hsl hsel.2 hkeys
+  obtain ⟨kvs, a1, a2⟩ := msgRTP_of_slots S cs hS c sl unk cur hbody hsel.1 (fun k v f hv hf => by
+      have := hrt2 k v f hv (by simpa using hf)
+      simpa using this) hrtp
+  subst hunk
+  refine ⟨mkObj kvs, by rw [toPyDict, a1]; rfl, ?_⟩
+  unfold fromPyDict fromPyDictI fresh
+  unfold freshOn at a2
+  simp only [mkObj, a2, Except.bind, bind, jrt_msg, MState.toVal]
+
 end Bp
